@@ -1,5 +1,7 @@
 SPECIFICATION Spec
 CONSTANTS
+  Rounds = 2
+  FreshQueuePerSolve = TRUE
   N = 3
   ExitOnException = FALSE
   DetectAllFailed = TRUE
